@@ -85,7 +85,7 @@ PROPS = {
         'technique': 'in-harness contract checker over real renders: unique element ids make permutation, stability, first-occurrence and partition checks exact; model equality/order written from the docs',
         'claim': 'Arrays of 0-200 elements (around and beyond the 20-element merge threshold of slice::sort) over mixed kinds, duplicates across numeric encodings, nested arrays/maps, none and '
                  'missing attributes go through sort (plain, attribute, dotted and tuple paths), unique, group_by, first/last/nth/reverse/join/split/keys/values/pairs; every output is checked against '
-                 'the contract (permutation, non-decreasing, stable, refusal of incomparable keys, first representatives, partition, identities). Panics are recorded, CPU budget per case. `reverse` of strings is checked by characters (and is an involution).',
+                 'the contract (permutation, non-decreasing, stable, refusal of incomparable keys, first representatives, partition, identities). Panics are recorded, CPU budget per case. `reverse` of strings is checked by characters (and is an involution). Keys include the same numbers in every integer width (the band 2^63..2^64 among them) and sets of prefix-sharing arrays, for which refusal is demanded pairwise.',
         'note': 'sort order of array-valued keys uses the engine order (whose lawfulness C15 checks) because the docs and the code disagree on it; a missing attribute may be an error or be discarded',
         'rule': "one evaluation = one render of a collection-filter template; a cell = (filter template, mix of key kinds in the array, length class [0,1,small,merge,large], ok/err)",
         'must_observe': ['sorts_verified', 'uniques_verified', 'group_bys_verified', 'nth_verified', 'hostile_attribute_paths'],
@@ -122,7 +122,7 @@ PROPS = {
         'claim': 'add_raw_template and render_str are fed (1) every recursive construct nested 1..60 deep and far beyond the limits, (2) every loop-parsed construct chained 10^2..10^4 (quick) / 10^6 (thorough) times, '
                  '(3) token-level mutations (drop, duplicate, swap, truncate at any byte, wrong end names, multi-byte characters next to delimiters) of the repository\'s own snapshot inputs, (4) delimiter-rich token soup, '
                  '(5) random delimiter sets (ASCII pairs, two-byte characters, members equal to each other or containing `-`/quotes/`%`; one in five with a member of the wrong size, which set_delimiters must refuse or else cope with) with texts built from the members of every accepted set, (6) hostile template names, (7) huge numeric literals. '
-                 'Any panic, process death or CPU-budget overrun (confirmed alone with a 10x budget) is a violation; every error is also formatted with Display.',
+                 'Any panic, process death or CPU-budget overrun (confirmed alone with a 10x budget) is a violation; every error is also formatted with Display. Eight more chain kinds have operands that open a nested parse of their own (brace and spread attributes of inline component calls, parentheses, literals, calls, filter arguments, subscripts with expressions).',
         'note': 'non-termination is decided as bounded progress: 20 s of CPU per case (sources <= 4 MB), re-run alone with 200 s before it counts; stack verdicts hold for an 8 MiB stack and the optimised verdict build',
         'rule': "one evaluation = one source registered (and rendered as a one-off string unless it calls range); a cell = (family or construct, depth/length class, accepted/rejected)",
         'must_observe': ['nesting_sweep_points', 'length_sweep_points', 'accepted', 'rejected'],
@@ -135,7 +135,7 @@ PROPS = {
         'claim': '55 fault kinds (26 render-time, 16 syntax, 5 add-time references, 8 unterminated constructs) x 7 placements (entry top level, block of parent, block of child with super(), included, component body, '
                  'included of included, component called from an included template) x random multi-byte/CRLF/blank-line filler before and after, one render/build fault in four spread over several lines, in both registration orders. Checked: template name, span inside the source on '
                  'character boundaries, line/column = position of the byte range, span touches the offending token and stays inside the faulty construct, Display succeeds with `--> name:line:col` and the quoted line, '
-                 'one call-site note per call site naming the calling templates in order and designating a line:column inside the call construct, with the call sites at the top level or inside filter sections, set-blocks, loops, ifs and component bodies. One case in twelve registers 2-4 faulty children in one batch (orphan top-level blocks, unknown filters/tests/functions/include targets, 1-2 per template): the combined report must hold one entry per fault, each with its own template name, line:column and quoted line.',
+                 'one call-site note per call site naming the calling templates in order and designating a line:column inside the call construct, with the call sites at the top level or inside filter sections, set-blocks, loops, ifs and component bodies. One case in twelve registers 2-4 faulty children in one batch (orphan top-level blocks, unknown filters/tests/functions/include targets, 1-2 per template): the combined report must hold one entry per fault, each with its own template name, line:column and quoted line. Render and build faults are also spelled under three custom delimiter sets containing two-byte characters, and reached from one-off strings; reports are read format-agnostically (every name:line:column, whatever surrounds it).',
         'note': 'the per-fault token table is kept by hand and calibrated on the pinned tree (every fault kind yields a located error there); a zero-width span on the first byte of the offending token counts as touching it; resource-limit errors (un-located Msg) are outside this property',
         'rule': "one evaluation = one injected fault; a cell = (fault class, fault kind, placement, line class [first/later line, multi-byte text before the fault on its line, column 0])",
         'must_observe': ['spans_checked_with_coordinates', 'build_reports_checked', 'display_calls', 'call_site_positions_checked', 'faults_spread_over_lines', 'multi_template_build_reports', 'faults_reached_from_one_off_strings', 'faults_under_custom_delimiters'],
@@ -147,7 +147,7 @@ PROPS = {
         'claim': '72 Rust types built from the serde data model (all integer widths, f32/f64, bool, char, String, unit, Option, Vec, tuples 1-4, BTreeMap/HashMap with String/every integer width/char/bool/unit-enum keys, '
                  'named/tuple/newtype/unit structs, enums with unit/newtype/tuple/struct variants, nesting depth <= 4) are generated with boundary numbers, multi-byte text and empty/50-entry collections; each instance must '
                  'deserialize back to itself from Value and from &Value (floats by bits), print exactly what a second, independent Serializer into the model value type predicts (integers exact, maps sorted), identically through '
-                 'Context::insert, insert_value(converted) and from_serialize; maps with float/tuple/struct/unit/none/bytes/seq/map keys must be refused. Context::from_serialize of top-level maps with integer/bool/char/string keys must equal inserting each entry under the text of the key, and a top level that is no map or struct must be refused. Also: types whose Serialize impl hands over a string that only lives for the call (Ipv6Addr, SocketAddrV6, a hex digest formatted on the stack, collect_str), alone, in sequences, tuples, map values and map keys; and the third way back — a number given in any width or as a float, read as each of the 12 integer types, f32, f64, bool and String through a registered filter receiver, a keyword argument and TryFrom<Value> (exact value when it fits, refusal otherwise, never an altered number), sequences read element-wise, and a 10-field struct passed as keyword arguments and read back with Kwargs::deserialize.',
+                 'Context::insert, insert_value(converted) and from_serialize; maps with float/tuple/struct/unit/none/bytes/seq/map keys must be refused. Context::from_serialize of top-level maps with integer/bool/char/string keys must equal inserting each entry under the text of the key, and a top level that is no map or struct must be refused. Also: types whose Serialize impl hands over a string that only lives for the call (Ipv6Addr, SocketAddrV6, a hex digest formatted on the stack, collect_str), alone, in sequences, tuples, map values and map keys; and the third way back — a number given in any width or as a float, read as each of the 12 integer types, f32, f64, bool and String through a registered filter receiver, a keyword argument and TryFrom<Value> (exact value when it fits, refusal otherwise, never an altered number), sequences read element-wise, and a 10-field struct passed as keyword arguments and read back with Kwargs::deserialize. The accessors of Value (as_i64, as_u64, as_i128, as_u128, as_f64) give the exact number or nothing.',
         'note': 'Option<T> is only generated for payloads that cannot themselves serialise to none (the collapse the property excludes); the model serializer shares only the serde traits with the engine',
         'rule': "one evaluation = one conversion, read-back or render; a cell = (type, by-value/by-reference) for round trips and (bad key kind, top/nested) for refusals",
         'must_observe': ['roundtrips_ok', 'print_comparisons', 'unrepresentable_keys_refused', 'top_level_maps_compared', 'non_map_top_levels_refused', 'argument_readbacks', 'argument_structs_read_back'],
@@ -185,7 +185,7 @@ PROPS = {
         'claim': '(A) generated multi-template programs are rendered whole, per block and per component against contexts whose variables are rebound to ~65 hostile values (bytes incl. invalid UTF-8, 128-bit extremes, NaN/inf/-0.0, undefined inside containers, 16-element containers, 24-character strings, depth-8 nesting); '
                  '(B) 52 expression/statement shapes x all hostile operand pairs; (C) 7 kinds of unknown reference x 46 syntactic positions + 14 special positions x 6 registration modes (alone, in a child block, in an included template, in a parent, after a valid batch, one-off string) must be rejected; '
                  '(F) 49 replacement scenarios: a valid set whose component provider / parent is then replaced by a version without the referenced name must be rejected and must still render; (G) break/continue below every nesting (2-4 levels, ~1900 shapes) of for / filter section / set-block / component body / if / the else branch of an empty loop: whatever the parser decides, an accepted shape must render with balanced stacks (hook H3 read per shape) and, where the jump crosses no capture, to the text the loop semantics give; (D) depth sweeps of nested tags 1-39 and include/extends/component chains 1-32 must render; (E) recursive shapes (block inversion + super(), include of a descendant + super(), components without base case, values nested 100k deep by a template) must end with text or an error. '
-                 'Hook H3 reports the (value, loop, capture) stack sizes of every successful interpreter run: fresh states must end at (0,0,0), nested runs (blocks, super()) must be balanced.',
+                 'Hook H3 reports the (value, loop, capture) stack sizes of every successful interpreter run: fresh states must end at (0,0,0), nested runs (blocks, super()) must be balanced. Every generated component is also rendered through the API with an undefined value as a declared, a typed and an undeclared (rest) argument; four recursive shapes alternate between component calls, includes, blocks and captures.',
         'note': 'stack verdicts hold for an 8 MiB stack and the optimised verdict build; memory/time exhaustion by an accepted template is not looked for (generators cap loop products)',
         'rule': "one evaluation = one render or one registration attempt; a cell = (hostile kind, ok/err) per rebinding, (shape, kinds of v and x, outcome) for the matrix, (position, reference kind, mode) for injected references, (construct, depth class) for sweeps",
         'must_observe': ['render_end_events', 'unknown_reference_injections', 'matrix_shapes_completed', 'renders_ok', 'renders_err', 'provider_replacements', 'jump_shapes_accepted', 'jump_shapes_refused'],
@@ -266,7 +266,7 @@ PROPS = {
         'technique': 'two observation modes over generated routing programs: default escaper with disjoint data/text alphabets (no raw special may reach the output), and a marking escape function installed through the public set_escape_fn whose private-use brackets give the exact number of escapings of every data character, with an event count of escaper calls',
         'claim': 'A route generator sends a source (context string, map field, array item, nested field, map key reached by a key/value loop or `keys`, literal; incl. strings made only of specials) through 1-6 routing steps drawn from 32 kinds (set, loops in captures, set-blocks, filter sections, includes, component arguments/rest/bodies, ~, ternary, or, index, negative index, slice, default, first, join, upper, replace, every other text-returning built-in filter, array and map filters, loop variables, key/value loops, comprehensions, split, map-literal field, function result, safe followed by a rebuilding step) '
                  'to a print site hitting both sinks (expression write and fused variable-path write), inside and outside captures, directly printed array/map containers, `| safe`, optionally through blocks and super(). Mode B asserts depth >= 1 everywhere when autoescape is on and `safe` unused, exactly 1 in pass-through routes (no double escaping), '
-                 'exactly 0 for `| safe`, for a filter and a function registered as safe (trait `is_safe`), and for a safe filter reached through `State::call_filter`, while the same filter/function not registered as safe is escaped, and depth 0 with zero logged escaper calls when the template is not autoescaped (suffix not matching, custom suffix lists set before or after adding, render_str flag). Every eighth case renders a general generated program (markup-free text, no safe, hostile data) with the default escaper. Suffix-history family: 18 names sharing last extensions (multi-dot suffixes, suffixes without a dot, a name equal to a suffix) against 14 suffix lists changed before, between and after 2-6 registration steps; after every step every registered template is rendered alone and must be escaped exactly when its whole name ends with a suffix of the current list. Twin-sink family: the same text through the same sink (component argument, component body, map/array entry, assignment, ternary, print, function and filter results) marked safe and not marked, back to back and from one call site in a loop: each occurrence follows its own mark.',
+                 'exactly 0 for `| safe`, for a filter and a function registered as safe (trait `is_safe`), and for a safe filter reached through `State::call_filter`, while the same filter/function not registered as safe is escaped, and depth 0 with zero logged escaper calls when the template is not autoescaped (suffix not matching, custom suffix lists set before or after adding, render_str flag). Every eighth case renders a general generated program (markup-free text, no safe, hostile data) with the default escaper. Suffix-history family: 18 names sharing last extensions (multi-dot suffixes, suffixes without a dot, a name equal to a suffix) against 14 suffix lists changed before, between and after 2-6 registration steps; after every step every registered template is rendered alone and must be escaped exactly when its whole name ends with a suffix of the current list. Twin-sink family: the same text through the same sink (component argument, component body, map/array entry, assignment, ternary, print, function and filter results) marked safe and not marked, back to back and from one call site in a loop: each occurrence follows its own mark. For `render_component` the per-call flag is asserted to govern the whole render it starts: nested component calls and templates included below it follow the flag even where their own suffix disagrees.',
         'note': 'the escape function also validates that its input is valid UTF-8 (it is produced with from_utf8_unchecked); mixed on/off modes inside one render are not generated',
         'rule': "one evaluation = one render; a cell = (ordered routing step kinds, sink, autoescape on/off, configuration)",
         'must_observe': ['mode_a_outputs_checked', 'escape_calls_logged', 'data_characters_classified', 'pass_through_programs', 'safe_programs', 'not_autoescaped_programs', 'per_call_flag_checks', 'suffix_decisions_checked', 'twin_sink_halves_classified'],
